@@ -1,4 +1,5 @@
 import Cjet.Lemmas.DaemonC15Frame
+import Cjet.Props.CjsonTree
 import Cjet.Unwind.Ladders
 import Cjet.Props.Startup
 /-!
@@ -154,5 +155,13 @@ example : audit ladderAddDouble = false := by decide
 theorem startup_goto_ladders_audit : type_of% @Cjet.Props.Startup.goto_ladders_audit := @Cjet.Props.Startup.goto_ladders_audit
 theorem startup_failure_releases_all : type_of% @Cjet.Props.Startup.startup_failure_releases_all := @Cjet.Props.Startup.startup_failure_releases_all
 theorem startup_releases_all_listeners : type_of% @Cjet.Props.Startup.startup_releases_all_listeners := @Cjet.Props.Startup.startup_releases_all_listeners
+
+
+/-! ### the cJSON tree layer: every stored, forwarded or routed value is a cJSON_Duplicate (real code tied by vlib/cjsontree_tie.py) -/
+
+theorem json_duplicate_failure_leaks_nothing : type_of% @Cjet.Props.CjsonTree.duplicate_failure_leaks_nothing := @Cjet.Props.CjsonTree.duplicate_failure_leaks_nothing
+theorem json_duplicate_stops_at_first_failure : type_of% @Cjet.Props.CjsonTree.duplicate_stops_at_first_failure := @Cjet.Props.CjsonTree.duplicate_stops_at_first_failure
+theorem json_duplicate_is_faithful_copy : type_of% @Cjet.Props.CjsonTree.duplicate_is_faithful_copy := @Cjet.Props.CjsonTree.duplicate_is_faithful_copy
+theorem json_duplicate_children_ledger : type_of% @Cjet.Props.CjsonTree.duplicate_children_ledger := @Cjet.Props.CjsonTree.duplicate_children_ledger
 
 end Cjet.Props.C15
